@@ -733,6 +733,9 @@ func init() {
 			scn.Component = "peersync"
 			scn.PeerSync = true
 			scn.Kind = [2]string{"real", "adv"}
+			if a := pick(t, "psadapter", []string{"", "", "cln", "lnd"}); a != "" {
+				scn.Adapter[0], scn.Flavor[0] = a, a // peer-sync over its own real Lightning adapter
+			}
 			scn.BlockEverySec = 0
 			scn.DurationSec = pick(t, "dur", []int{600, 2400, 5400})
 			scn.Channels = append(scn.Channels, world.ChannelCfg{Block: 200, Tx: 2, Out: 0, A: 0, B: 2, BalA: 1, BalB: 1})
